@@ -694,6 +694,14 @@ func (p *Parsed) mutationSites(r *rand.Rand, gi int) []site {
 			}
 			if len(x.List) >= 1 {
 				pos := r.Intn(len(x.List) + 1)
+				if pos == len(x.List) {
+					// never behind a statement that ends the block (the result would not
+					// compile: "missing return" / unreachable code is no behaviour change)
+					switch x.List[pos-1].(type) {
+					case *ast.ReturnStmt, *ast.BranchStmt:
+						pos--
+					}
+				}
 				add("stmt-add", "non-literal", x, func() {
 					st := &ast.ExprStmt{X: &ast.CallExpr{Fun: ast.NewIdent("trace"), Args: []ast.Expr{&ast.BasicLit{Kind: token.INT, Value: "7"}}}}
 					x.List = append(x.List[:pos:pos], append([]ast.Stmt{st}, x.List[pos:]...)...)
